@@ -2,3 +2,4 @@ pub mod config;
 pub mod dsl;
 pub mod field;
 pub mod mutate;
+pub mod stark;
